@@ -1219,6 +1219,111 @@ def derived_names(ctx, res):
                     pass
 
 
+SHARED_KINDS = ['cache', 'fanout', 'index', 'django', 'stampede', 'stampede-fanout']
+SHARED_CALLS = [((3,), {}), ((3,), {'scale': 2}), ((), {}), (('a', None), {}), ((1.0,), {'scale': 1})]
+
+
+def shared_functions(n):
+    """n different functions with one signature and different bodies (module-level style names, nested helpers, lambdas)."""
+    def double(*a, **k):
+        return ('double', a, sorted(k.items()))
+
+    def square(*a, **k):
+        return ('square', a, sorted(k.items()), 2)
+
+    def cube(*a, **k):
+        return ['cube', a, sorted(k.items())]
+    return [double, square, cube][:n]
+
+
+def open_shared(kind, d):
+    """(one decorator factory typed -> decorator, close) for a memoizer kind; name is left to be derived from the function."""
+    import diskcache.recipes as rec
+    if kind == 'cache':
+        obj = diskcache.Cache(d)
+        return (lambda typed: obj.memoize(typed=typed, expire=60)), obj.close
+    if kind == 'fanout':
+        obj = diskcache.FanoutCache(d, shards=3)
+        return (lambda typed: obj.memoize(typed=typed, expire=60)), obj.close
+    if kind == 'index':
+        obj = diskcache.Index(d)
+        return (lambda typed: obj.memoize(typed=typed)), obj.cache.close
+    if kind == 'django':
+        from django.conf import settings
+        if not settings.configured:
+            settings.configure()
+        from diskcache.djangocache import DjangoCache
+        obj = DjangoCache(d, {'SHARDS': 2})
+        return (lambda typed: obj.memoize(typed=typed, timeout=60)), obj.close
+    obj = diskcache.Cache(d) if kind == 'stampede' else diskcache.FanoutCache(d, shards=3)
+    return (lambda typed: rec.memoize_stampede(obj, 100, typed=typed)), obj.close
+
+
+def run_shared_decorator(res, make, kind, typed, nfun, order):
+    """ONE decorator object (cached = cache.memoize(...)) applied to nfun different functions; the functions are then called with equal
+    arguments (in the given order of functions, twice): each call returns what ITS function returns.  Returns [(sig, text, fname, call)]."""
+    bad = []
+    cached = make(typed)
+    funs = shared_functions(nfun)
+    wrapped = [cached(f) for f in funs]
+    for args, kw in SHARED_CALLS:
+        for rnd in (0, 1):
+            for i in order:
+                f, w = funs[i], wrapped[i]
+                want = f(*args, **kw)
+                try:
+                    got = w(*args, **kw)
+                except Exception as e:  # noqa
+                    got = '<%s: %s>' % (type(e).__name__, e)
+                res.count(['shared-decorator', kind, typed, nfun, tuple(order), i, rnd, repr(args), repr(kw)], nontrivial=True)
+                if not same_result(got, want):
+                    bad.append(('shared_decorator_entry_shared', 'one decorator object of the %s memoizer (typed=%r, name derived) applied to %s: %s%r %r returned %r, the function '
+                                'returns %r (earlier calls with these arguments: %s)' % (kind, typed, [g.__name__ for g in funs], f.__name__, args, kw, got, want,
+                                                                                       [funs[j].__name__ for j in order[:order.index(i)]] if rnd == 0 else 'every function'),
+                                f.__name__, enc_call(args, kw)))
+    keys = {}
+    for f, w in zip(funs, wrapped):
+        for args, kw in SHARED_CALLS:
+            try:
+                k = repr(w.__cache_key__(*args, **kw))
+            except Exception:  # noqa
+                continue
+            other = keys.setdefault((k, repr(enc_call(args, kw))), f.__name__)
+            if other != f.__name__:
+                bad.append(('shared_decorator_key_shared', 'one decorator object of the %s memoizer (typed=%r, name derived): %s and %s have the same __cache_key__ %s for %r %r'
+                            % (kind, typed, other, f.__name__, k, args, kw), f.__name__, enc_call(args, kw)))
+    return bad
+
+
+def shared_decorator(ctx, res):
+    """'Entries are never shared': the decorator object returned by ONE memoize() call may decorate several functions (cached = cache.memoize(expire=60);
+    @cached above each); with the name left to be derived every function has its own entries."""
+    n = 0
+    clock = instr.Clock(1000.0)
+    with instr.Installed(clock):
+        for kind in SHARED_KINDS:
+            for typed in (False, True):
+                for nfun, order in ((2, [0, 1]), (2, [1, 0]), (3, [0, 1, 2]), (3, [2, 0, 1])):
+                    d = ctx.scratch('c16s')
+                    try:
+                        make, close = open_shared(kind, d)
+                    except ImportError:
+                        continue
+                    try:
+                        bad = run_shared_decorator(res, make, kind, typed, nfun, order)
+                    finally:
+                        close()
+                    n += 1
+                    seen = set()
+                    for sig, text, fname, call in bad:
+                        if sig in seen:
+                            continue
+                        seen.add(sig)
+                        res.violations.append(fw.Violation(sig, text, {'check': 'shared_decorator', 'kind': kind, 'typed': typed, 'functions': nfun, 'order': order,
+                                                                       'function': fname, 'call': call}))
+    res.extra['shared_decorator_settings'] = n
+
+
 def witness_none_positional():
     """Finding C16-F1: f(1, None, 'a') and f(1, a=None) share a key."""
     import tempfile, shutil
@@ -1261,7 +1366,7 @@ def run(ctx):
                 'memoize_stampede on a Cache and on a FanoutCache x 4 (typed, ignore) settings x 7 base calls: the early recomputation of the base call is forced '
                 '(random draw fixed, the thread held back or run at once), and while its marker entry exists -- and again afterwards -- about 30 calls whose arguments '
                 'extend the base call by one or two positional values / a keyword / both, drawn from {None, ENOVAL, UNKNOWN, (), (None,), ("ENOVAL",), "ENOVAL", 0, False, "", b""}, '
-                'and the base call itself return what the function returns for their own arguments (pairs that collide by the recorded C16-F1 are left out).  non-trivial = at least one argument; distinct = distinct (config, call).')
+                'and the base call itself return what the function returns for their own arguments (pairs that collide by the recorded C16-F1 are left out); one decorator object (cached = x.memoize(...), name derived) of Cache / FanoutCache / Index / DjangoCache .memoize and memoize_stampede on a Cache and on a FanoutCache x typed applied to two and to three different functions with one signature, called with equal arguments in two orders, twice: each call returns the result of its own function and the __cache_key__s differ.  non-trivial = at least one argument; distinct = distinct (config, call).')
     if ctx.quick:
         cc = enumerate_keys(ctx, res, 2, 2)
         correspondence(ctx, res, cc, 1200)
@@ -1285,6 +1390,7 @@ def run(ctx):
     stampede_recompute(ctx, res)
     stampede_marker(ctx, res)
     derived_names(ctx, res)
+    shared_decorator(ctx, res)
     res.witnessed['none_positional'] = witness_none_positional()
     return res
 
@@ -1302,6 +1408,7 @@ def search(ctx, broken):
     stampede_recompute(ctx, res)
     stampede_marker(ctx, res)
     derived_names(ctx, res)
+    shared_decorator(ctx, res)
     return res
 
 
@@ -1427,6 +1534,24 @@ def replay(payload):
                 print('MONITOR %s: %s' % (sig, text))
             print('memoize_stampede, early recomputation of f%r %s: %s' % (marker_dec(case['base']), case['mode'],
                                                                            'other calls return their own results' if not bad else 'another call did NOT get its own result'))
+            return not bad
+        finally:
+            shutil.rmtree(d, ignore_errors=True)
+    if case.get('check') == 'shared_decorator':
+        import tempfile, shutil
+        d = tempfile.mkdtemp(prefix='c16r-')
+        clock = instr.Clock(1000.0)
+        try:
+            with instr.Installed(clock):
+                make, close = open_shared(case['kind'], os.path.join(d, 'c'))
+                try:
+                    bad = run_shared_decorator(fw.Result(), make, case['kind'], case['typed'], case['functions'], list(case['order']))
+                finally:
+                    close()
+            for sig, text, fname, call in bad[:6]:
+                print('MONITOR %s: %s' % (sig, text))
+            print('one %s decorator object on %d functions: %s' % (case['kind'], case['functions'],
+                                                                   'every function returns its own results' if not bad else 'functions do NOT have their own entries'))
             return not bad
         finally:
             shutil.rmtree(d, ignore_errors=True)
